@@ -4,6 +4,22 @@ import json, os, sys
 HERE = os.path.dirname(os.path.dirname(os.path.abspath(__file__)))
 
 CHECKS = {
+ "C02": dict(
+   technique="exhaustive operator x type table + Hypothesis expression trees, differential against a C11 reference evaluator",
+   text="Every operator x left type x right type cell (16 binary, 3 unary, ?:; 8 integer types) and all depth-2 operator pairs are compiled "
+        "with value / shift / sizeof / condition observers and executed on a boundary grid of operand values (thorough: all 256x256 values for "
+        "8-bit cells) by the reference C evaluator and the RzIL interpreter; deeper trees come from Hypothesis. The table is finite and "
+        "enumerated completely; values are sampled except for 8-bit cells in thorough.",
+   note="Trusted: vlib/cref (C11 6.3.1/6.5, int=32, long=64, -fwrapv), vlib/il, machine model. Cells inside the class of a listed finding are "
+        "matched against the exact failing-cell list in known_findings.json; depth-2 cells in such classes are excluded and counted.",
+   design="7/C02"),
+ "C05": dict(
+   technique="Hypothesis-generated statement sequences, differential execution C reference vs RzIL interpreter on generated states",
+   text="Generated programs (declarations, simple/compound assignment to locals and registers, if/else chains, for loops with literal and "
+        "data-dependent trip counts 0..8, nested loops, stores, nested blocks) are executed by both models on generated states; final register, "
+        "memory and jump state must agree. Expressions are kept in the safe core so a failure is about statements. Exploration only.",
+   note="Trusted: vlib/cref, vlib/il, machine model (DESIGN.md 4). Classes of listed expression-level findings are excluded by construction and counted.",
+   design="7/C05"),
  "C01": dict(
    technique="differential execution: independent C11 reference evaluator vs RzIL interpreter on Hypothesis-generated machine states",
    text="Every accepted corpus part (thorough: all 2181 definitions, 120 states each; quick: ~230 stratified by seed, 20 states) and a caller "
